@@ -34,7 +34,7 @@ def base(**kw):
 def mc_cfgs(ctx):
     if ctx.quick():
         return [
-            ("hist_w3", base(Locals={0, 3, 6}, MaxOps=4)),
+            ("hist_w3", base(Locals={0, 6}, MaxOps=4)),
             ("hist_w3_k1_allconn", base(K=1, Locals={5}, Conns={"N", "C", "X", "Y"}, MaxOps=3)),
             ("closest_w4", base(W=4, K=8, Locals={11}, MaxOps=1, Ks={0, 1, 2, 3, 5, 16}, InitMax=4, PeerOps=set())),
             ("closest_w5", base(W=5, K=16, Locals={21}, MaxOps=1, Ks={0, 1, 2, 3, 32}, InitMax=2, PeerOps=set())),
